@@ -361,6 +361,54 @@ fn line_rule(acc: &mut Acc, k: usize, ignore: bool) {
     }
 }
 
+/// the file name of a macro-named include is what is between the quotes of the expansion, whatever
+/// white space or comment the `define line carries around it
+fn macro_named_forms(acc: &mut Acc, k: usize, ignore: bool) {
+    let tag = std::thread::current().name().unwrap_or("m").to_string();
+    let an = format!("{}_n.svh", tag);
+    let q = format!("\"{}\"", an);
+    let defs: Vec<String> = vec![
+        format!("`define H {}\n", q),
+        format!("`define H {} // the common header\n", q),
+        format!("`define H {}   \n", q),
+        format!("`define H    {}\t\n", q),
+        format!("`define H {} \\\n\n", q),
+        format!("`define H(x) x\n`define G `H({})\n`define H2 `G\n", q),
+        format!("`define Q {}\n`define H `Q // via another macro\n", q),
+    ];
+    let uses = ["`include `H\n", "`include `H // c\n", "  `include `H  \n", "`include `H2\n"];
+    let di = k % defs.len();
+    let ui = (k / defs.len()) % uses.len();
+    if (ui == 3) != (di == 5) {
+        return; // H2 exists only in the nested form
+    }
+    let src = format!("{}a\n{}b\n", defs[di], uses[ui]);
+    std::fs::write(&an, "inc_marker\n").ok();
+    acc.transitions += 1;
+    acc.traces += 1;
+    acc.nontrivial += 1;
+    let r = api::pp_str(&src, Path::new("top.sv"), &to_defs(&[]), &[] as &[PathBuf], ignore, false);
+    let _ = std::fs::remove_file(&an);
+    let case = json!({"source": src, "ignore_include": ignore});
+    match r {
+        Err(p) => acc.violation(None, case, format!("panic {}", p)),
+        Ok(Ok((pt, _))) => {
+            let toks: Vec<String> = crate::models::lexref::significant(pt.text()).unwrap_or_default().into_iter().filter(|t| t == "a" || t == "b" || t == "inc_marker").collect();
+            let want: Vec<&str> = if ignore { vec!["a", "b"] } else { vec!["a", "inc_marker", "b"] };
+            if toks != want {
+                acc.class("violation");
+                acc.violation(None, case, format!("macro-named include: expected the tokens {:?} in this order, got {:?}\noutput: {:?}\nsource: {:?}", want, toks, pt.text(), src));
+            } else {
+                acc.class("macro-named-include-ok");
+            }
+        }
+        Ok(Err(e)) => {
+            acc.class("violation");
+            acc.violation(None, case, format!("macro-named include fails with {}\nsource: {:?}", err_sig(&e), src));
+        }
+    }
+}
+
 /// ignore_include must also hold inside macro expansions: no file may be read
 fn ignore_in_expansion(acc: &mut Acc, present: bool) {
     let tag = std::thread::current().name().unwrap_or("m").to_string();
@@ -422,6 +470,7 @@ pub fn build(tier: Tier) -> Check<'static> {
         let sp = cases(tier);
         c.parts.push(Part::new("include-graphs", sp.len(), "include placement / search order / contents / styles", move |i, acc| one(acc, &sp.get(i))));
     }
+    c.parts.push(Part::new("macro-named-include-forms", 56, "7 ways to define the macro that names the file (plain, trailing comment, trailing blanks / tab, continuation, through a function-like macro, through another macro) x 4 ways to write the directive x ignore_include", move |i, acc| macro_named_forms(acc, (i / 2) as usize, i % 2 == 1)));
     c.parts.push(Part::new("same-line-rule", 54, "27 same-line forms (text, comments, directives of every kind before and behind the `include) x ignore_include", move |i, acc| line_rule(acc, (i / 2) as usize, i % 2 == 1)));
     c.parts.push(Part::new("ignore-include-in-expansion", 2, "`include produced by a macro body under ignore_include, file absent / present", move |i, acc| ignore_in_expansion(acc, i == 1)));
     c
